@@ -536,3 +536,27 @@ func (t *ftr) mapIndex(e *ast.IndexExpr, mk tkind) string {
 	}
 	return get
 }
+
+// ------------------------------------------------------------------ bytes.Compare
+
+var compareHelperDone bool
+
+// ensureCompareHelper writes go_bytes_compare (lexicographic order on octet lists: -1, 0, 1) into the
+// generated file, once.
+func ensureCompareHelper() {
+	if compareHelperDone {
+		return
+	}
+	compareHelperDone = true
+	usesGoList = true
+	out.WriteString(`(* bytes.Compare / strings.Compare: lexicographic order on octet strings *)
+Fixpoint go_bytes_compare (a b : list N) : Z :=
+  match a, b with
+  | [], [] => 0
+  | [], _ :: _ => -1
+  | _ :: _, [] => 1
+  | x :: a', y :: b' => if N.ltb x y then -1 else if N.ltb y x then 1 else go_bytes_compare a' b'
+  end.
+
+`)
+}
